@@ -113,6 +113,8 @@ func adam(f func(ConstVector) (MagicScalar, error), x0 ConstVector, step_size, b
     if (constraints.Value != nil && !constraints.Value(x2)) {
       return x1, fmt.Errorf("Constraints voilated")
     }
+    // x2 is evaluated and accepted
+    x1.Set(x2)
     // execute hook if available
     if hook.Value != nil && hook.Value(x1, gradient, s) {
       break
@@ -134,7 +136,6 @@ func adam(f func(ConstVector) (MagicScalar, error), x0 ConstVector, step_size, b
     }
     beta1_t *= beta1
     beta2_t *= beta2
-    x1.Set(x2)
   }
   return x1, nil
 }
